@@ -2,6 +2,20 @@
 //! parse, see lean/RioModel/Model/RouterJson.lean), their translation into the real
 //! `redirectionio::api::Rule` / `redirectionio::http::Request`, and the generator ("trigger grammar"
 //! built to collide buckets of every matcher layer).
+//!
+//! The descriptions say what a rule MEANS (UTC instants, seconds since midnight, week-day numbers, networks as
+//! address + prefix length); how the texts of the real rule are WRITTEN is decided here and is invisible to the
+//! model, so that an implementation which depends on the spelling disagrees with it:
+//!   bound of a `datetime` / `time` window:
+//!       null | nat | {"t":nat, "off":minutes east of UTC?, "ns":nat?, "z":bool?, "hm":bool?} | {"bad":text}
+//!       ("off"/"z" only for dates, "hm" = `HH:MM` only for times; "ns" > 0 = the next whole second for the
+//!       whole-second instants of the requests; "bad" = a text of BAD_DATES / BAD_TIMES: the bound is absent)
+//!   "weekdays":[0..6 | null], "wdstyle":0..5 — spelling of the day names; null = a text chrono rejects (dropped)
+//!   cidr {"neg","ip","bits"}: written `ip/bits` even if that is not a network (host bits set, prefix too
+//!       long): the library drops such a range when the rule is read, and so does the model
+//!   request "at":nat (UTC), "atoff":minutes — the zone the instant is written in
+//! Diff-directed search: see `hint_block` / `the_hints` (env VERIF_HINTS set by ./check when the library
+//! differs from the committed baseline).
 #![allow(dead_code)]
 
 use redirectionio::api::Rule;
